@@ -250,21 +250,34 @@ func ssConfiguration() raft.Configuration {
 	return raft.Configuration{Servers: []raft.Server{{ID: "1", Address: "localhost:1"}}}
 }
 
-// ssNewMs waits until the wall clock shows a millisecond not used before by this process
-// for naming: snapshot ids are "<term>-<index>-<unix ms>" and ties are ordered by that string.
-var ssLastMs int64
-var ssMsMu sync.Mutex
+// Snapshot ids are "<term>-<index>-<unix ms>" and ties in (term, index) are ordered by that string, so
+// within one store no two names may carry the same millisecond.  ssClock remembers the latest stamp
+// used in a store (by the harness or by a reap) and waits until the wall clock has passed it.
+type ssClock struct{ last int64 }
 
-func ssNewMs() {
-	ssMsMu.Lock()
-	defer ssMsMu.Unlock()
-	for {
-		now := time.Now().UnixMilli()
-		if now > ssLastMs {
-			ssLastMs = now
-			// make sure the call that follows sees a time >= now and the next caller a later one
-			return
+func ssStamp(name string) int64 {
+	name = strings.TrimSuffix(name, ".tmp")
+	v, _ := strconv.ParseInt(name[strings.LastIndex(name, "-")+1:], 10, 64)
+	return v
+}
+
+func (c *ssClock) saw(name string) {
+	if v := ssStamp(name); v > c.last {
+		c.last = v
+	}
+}
+
+func (c *ssClock) sawDir(dir string) {
+	ents, _ := os.ReadDir(dir)
+	for _, e := range ents {
+		if e.IsDir() {
+			c.saw(e.Name())
 		}
+	}
+}
+
+func (c *ssClock) tick() {
+	for time.Now().UnixMilli() <= c.last {
 		time.Sleep(200 * time.Microsecond)
 	}
 }
@@ -386,8 +399,7 @@ func ssDirListing(m *ssMaterials, dir string, names *ssNames) (dirs []ssDirProj,
 			}
 		}
 	}
-	stamp := func(n string) int64 { v, _ := strconv.ParseInt(n[strings.LastIndex(n, "-")+1:], 10, 64); return v }
-	sort.Slice(unknown, func(i, j int) bool { return stamp(unknown[i]) < stamp(unknown[j]) })
+	sort.Slice(unknown, func(i, j int) bool { return ssStamp(unknown[i]) < ssStamp(unknown[j]) })
 	for _, b := range unknown {
 		if names.byName[b] == 0 {
 			names.alloc(b)
@@ -548,6 +560,7 @@ type ssRun struct {
 	cacheK string
 	cacheV []map[string]any
 	tmp    string
+	clock  ssClock
 }
 
 func (r *ssRun) openStore() error {
@@ -653,11 +666,13 @@ func (r *ssRun) exec(op ssOp, crash bool) (bool, error) {
 		if sl != nil {
 			return false, nil
 		}
-		ssNewMs()
+		r.clock.sawDir(r.Dir)
+		r.clock.tick()
 		sk, err := r.st.Create(1, uint64(op.Idx), uint64(op.Term), ssConfiguration(), 1, nil)
 		if err != nil {
 			return true, fmt.Errorf("Create: %w", err)
 		}
+		r.clock.saw(sk.ID())
 		snapshot.VerifSSSinkNoFatal(sk)
 		id := r.names.alloc(sk.ID())
 		r.out(map[string]any{"ev": "_name", "name": sk.ID(), "id": id})
@@ -740,8 +755,10 @@ func (r *ssRun) exec(op ssOp, crash bool) (bool, error) {
 		err := r.st.SetDueNext(snapshot.Full)
 		r.out(map[string]any{"ev": "setfull", "ok": err == nil})
 	case "reap":
-		ssNewMs()
+		r.clock.sawDir(r.Dir)
+		r.clock.tick()
 		_, _, err := r.st.Reap()
+		r.clock.sawDir(r.Dir)
 		r.out(map[string]any{"ev": "reap", "ok": err == nil, "err": errStr(err)})
 	case "reopen":
 		r.st.Close()
@@ -1202,13 +1219,15 @@ func ssReapCase(m *ssMaterials, self, base string, n int, c *ssCase) ssReapResul
 	st.VerifSSNoFatal()
 	st.SetReapThreshold(1 << 30)
 	label := 0
+	var clock ssClock
 	for k, it := range c.Shape.Items {
-		ssNewMs()
+		clock.tick()
 		sk, err := st.Create(1, uint64(it.Idx), uint64(it.Term), ssConfiguration(), 1, nil)
 		if err != nil {
 			st.Close()
 			return fail("harness:create", err.Error())
 		}
+		clock.saw(sk.ID())
 		snapshot.VerifSSSinkNoFatal(sk)
 		names.alloc(sk.ID())
 		labels := []int{}
